@@ -538,8 +538,9 @@ func c02Exec(scAny any, c *simcheck.Ctx) *simcheck.Violation {
 				// either, and leaves the premise as it was
 				c.St.Count("builds_over_an_unreadable_source", 1)
 				if currentLabel == op.Label {
+					forced := alwaysDownstream(h.p, op.Label)
 					for _, l := range h.startsIn(i) {
-						if t := h.p.target(l); t != nil && !t.Always {
+						if !forced[l] {
 							return simcheck.V("spurious-rebuild", "a build of %s that failed on an unreadable source executed %s although nothing had changed", op.Label, l)
 						}
 					}
@@ -554,28 +555,7 @@ func c02Exec(scAny any, c *simcheck.Ctx) *simcheck.Violation {
 		}
 		if currentLabel == op.Label && !op.Always {
 			c.St.Count("noop_rebuilds_checked", 1)
-			always := map[string]bool{}
-			for _, t := range h.p.closure(op.Label) {
-				if t.Always {
-					always[t.label()] = true
-				}
-			}
-			// downstream of an always target may execute
-			changed := true
-			for changed {
-				changed = false
-				for _, t := range h.p.closure(op.Label) {
-					if always[t.label()] {
-						continue
-					}
-					for _, d := range h.p.directDeps(t) {
-						if always[d.label()] {
-							always[t.label()] = true
-							changed = true
-						}
-					}
-				}
-			}
+			always := alwaysDownstream(h.p, op.Label)
 			for _, l := range h.startsIn(i) {
 				if !always[l] {
 					reason := ""
@@ -591,6 +571,33 @@ func c02Exec(scAny any, c *simcheck.Ctx) *simcheck.Violation {
 		currentLabel = op.Label
 	}
 	return nil
+}
+
+// alwaysDownstream: the always=True targets of the closure and everything downstream of
+// them (which may execute in every build).
+func alwaysDownstream(p *projSpec, label string) map[string]bool {
+	always := map[string]bool{}
+	for _, t := range p.closure(label) {
+		if t.Always {
+			always[t.label()] = true
+		}
+	}
+	changed := true
+	for changed {
+		changed = false
+		for _, t := range p.closure(label) {
+			if always[t.label()] {
+				continue
+			}
+			for _, d := range p.directDeps(t) {
+				if always[d.label()] {
+					always[t.label()] = true
+					changed = true
+				}
+			}
+		}
+	}
+	return always
 }
 
 func pkgInClosure(p *projSpec, label, pkg string) bool {
